@@ -1,4 +1,7 @@
 """C07 — failures are always reported as tranp errors: normalisation kernels (CrossHair case analysis with environment stubs)."""
+import sys
+
+from vlib import runner
 from vlib.runner import Job, Report
 
 H = 'harness.c07_errors'
@@ -9,13 +12,31 @@ def run(rep: Report, tier: str, only=None) -> None:
 	jobs = [
 		Job('O1.parse_error', H, 'parse_error_law', {}, t, 'F', 'parser.parse raises one of 8 exceptions (UnexpectedToken, UnexpectedCharacters, UnexpectedEOF, DedentError, ValueError, RecursionError, KeyError, AssertionError) x module on disk / only in memory', ('on_disk', 'in_memory', 'syntax_error')),
 		Job('O2.handler_error', H, 'handler_error_law', {}, t, 'F', 'a Procedure handler raises one of 10 exceptions (built-in, application error with node / text / no argument) at handler call 1..6 of a real parsed tree; rendering; reuse of the procedure', ('normalised',)),
-		Job('O3.render', 'harness.c16_spans', 'render_law', {}, t, 'S', 'ErrorRender(Errors.NodeNotFound(node)).render() for a real node with a symbolic span or without any recorded position (line index -1)', ('position', 'no_position')),
+		Job('O3.render', 'harness.c16_spans', 'render_law', {}, 3 * t, 'S', 'ErrorRender(Errors.NodeNotFound(node)).render() for a real node with a symbolic span or without any recorded position (line index -1)', ('position', 'no_position')),
 	]
+	P = 'harness.c07_pipeline'
+	sys.path.insert(0, runner.VERIF)
+	from harness.c07_shapes import SHAPES_N, BASE_TOKENS
+	closed = []
+	for s in range(SHAPES_N):
+		m = 3 if s < 7 else 1
+		for k in range(m):
+			closed.append((f'O4.illtyped.t{s}', P, 'illtyped_closed', {'s': s, 'slice': [k, m]}, 'well-formed but ill-typed programs: template x 24 type annotations x 37 expressions (a template with one slot uses one pool) through the complete real pipeline (real Lark parser, every preprocessor, Py2Cpp) and ErrorRender (closed, enumerated)'))
+	pool = 31 if tier == 'thorough' else 12
+	step = 12 if tier == 'thorough' else 24
+	for b, n in enumerate(BASE_TOKENS):
+		for lo in range(0, n, step):
+			closed.append((f'O5.mutation.b{b}', P, 'mutation_closed', {'base': b, 'range': [lo, min(lo + step, n)], 'pool': pool}, f'token-level mutations of a valid program ({n} tokens): delete / duplicate / swap-with-next at every token, replace every token by each of {pool} tokens (brackets, colon, comma, dot, newline + indentation changes, keywords, quotes); complete real pipeline and ErrorRender (closed, enumerated)'))
 	if only:
 		jobs = [j for j in jobs if j.obligation in only or j.obligation.split('.')[0] in only]
 	rep.functions = ['SyntaxParserOfLark.__load_entry', 'CacheProvider.get (disabled)', 'Procedure.exec/__emit/__run_action', 'ErrorRender.render/__build_stacktrace/__build_quotation/__build_message']
 	rep.bounds = {'exceptions': 'finite sets listed in the obligations', 'tree': 'one parsed three-statement module'}
-	rep.assumptions = ['Lark itself is outside: the stub\'s contract is "parse may raise any exception"', 'the error renderer reads the module file through the in-memory file stub of harness.c16_spans']
-	rep.outside = ['"for every input text" through the real Lark parser', 'type resolution errors of ill-typed programs', 'termination']
+	rep.assumptions = ['O1: Lark is a stub whose contract is "parse may raise any exception"; O4/O5 run the real Lark parser', 'the error renderer reads the module file through the in-memory file stub of harness.c16_spans']
+	rep.outside = ['input texts outside the two generated families (ill-typed template fillings, single token mutations of three programs)', 'modules on disk through the whole pipeline (the kernels O1 cover the on-disk branch of the parser wrapper)', 'termination beyond "every generated program returned"']
+	sel = [c for c in closed if not only or c[0] in only or c[0].split('.')[0] in only]
+	handle = rep.start_closed_many(sel)
 	rep.run_jobs(jobs)
+	rep.finish_closed_many(handle)
+	if not only or 'O5' in only:
+		rep.run_closed('O5.bases', P, 'bases_closed', {}, 'the three base programs of the mutation family are accepted by the pipeline (closed)')
 	rep.check_recorded()
